@@ -40,6 +40,8 @@ var edge = []File{
 	{"edge/generic", "package p\n\ntype S[T any, U interface{ ~int | ~string }] struct{ a T }\n\nfunc (s *S[T, U]) m() {}\n\nvar _ = f[int, string](1)\n"},
 	{"edge/semicolons", "package p; import \"fmt\"; func f() { fmt.Println(); ; }; var x int\n"},
 	{"edge/comments-everywhere", "package p\n\nfunc /*a*/ f /*b*/ ( /*c*/ a /*d*/ int /*e*/ ) /*f*/ int /*g*/ { /*h*/\n\treturn /*i*/ a /*j*/ + /*k*/ 1 /*l*/ // m\n\t// n\n} // o\n\n// p\n"},
+	{"edge/leading-blank-lines", "\n\n\npackage p\n\nvar x = 1\n"},
+	{"edge/leading-blank-lines-comment", "\n\n// c\n\n\npackage p\n"},
 	{"edge/select-switch", "package p\n\nfunc f(c chan int) {\n\tselect {\n\t// a\n\tcase <-c:\n\t\t// b\n\tdefault:\n\t}\n\tswitch x := 1; {\n\tcase x > 0:\n\t\tfallthrough\n\tdefault:\n\t\t// c\n\t}\n}\n"},
 }
 
